@@ -30,7 +30,7 @@ def scenarios(tier, seed=0):
         "irr": ["none", "smt", "sched", "sched_cap30", "smt_cap60", "net80", "const8e70"],
         "field": ["none", "bunds50w20", "bunds50w500", "bunds_mulch", "mulch", "cn+20", "parked"],   # incl. an initial pond above the bund height
         "fallow": ["none", "bunds50w20", "bunds50w500", "parked"],
-        "gw": ["none", "0.8", "rising_v", "falling_c"],
+        "gw": ["none", "0.8", "rising_v", "falling_c", "rising_above_zmin_v"],
         "off": [False, True],
         "soil": ["ClayLoam", "Paddy", "custom3"],
         "win": ["w2", "w3"],
